@@ -31,6 +31,7 @@ from ngo.utils.ast import (
     SIGNS,
     AnnotatedPredicate,
     Predicate,
+    SignedPredicate,
     SignSetType,
     body_predicates,
     collect_ast,
@@ -59,8 +60,22 @@ class RuleDependency:
                 ):
                     self.head2bodies[head].append(stm.body)
                     self.head2rules[head].append(stm)
-            for p in chain(body_predicates(stm, SIGNS), minimize_predicates(stm, SIGNS)):
+            for p in chain(body_predicates(stm, SIGNS), minimize_predicates(stm, SIGNS), self._head_condition_predicates(stm)):
                 self.pred2stm[p.pred].append(stm)
+
+    @staticmethod
+    def _head_condition_predicates(stm: AST) -> Iterator[SignedPredicate]:
+        """predicates in the conditions of the head elements of a rule, e.g. h in { sel(V) : h(V,F), F > 1 }."""
+        if stm.ast_type != ASTType.Rule or stm.head.ast_type not in (
+            ASTType.Disjunction,
+            ASTType.Aggregate,
+            ASTType.HeadAggregate,
+        ):
+            return
+        for elem in stm.head.elements:
+            conditions = elem.condition.condition if stm.head.ast_type == ASTType.HeadAggregate else elem.condition
+            for cond in conditions:
+                yield from literal_predicate(cond, SIGNS)
 
     def get_bodies(self, head: Predicate) -> list[AST]:
         """return all bodies of head predicate"""
